@@ -60,6 +60,7 @@ def gen_table(rng):
     if mapkind == "permuted-pos":
         rng.shuffle(order)
     rows = []
+    int_first = rng.random() < 0.25
     customs = {"score": "float", "count": "int", "kind": "str", "flag": "bool"}
     use_custom = [c for c in customs if rng.random() < 0.5]
     tid_mode = rng.choice(["none", "none", "valid", "invalid"])
@@ -90,6 +91,8 @@ def gen_table(rng):
         else:
             row[names["parent_id"]] = ext[p]
         pos = [round(rng.uniform(0, 50), 3) for _ in axes]
+        if int_first:
+            pos[0] = int(pos[0])  # an integer-typed first coordinate column (plane / row index)
         for a, v in zip(posnames, pos):
             row[a] = v
         row["uid"] = str(ext[n])
@@ -342,6 +345,8 @@ def judge_geff(case, wd, rng):
             g.edges[u_, v_]["e_w"] = 0.5 + i_
             g.edges[u_, v_]["e_d"] = -1.0 * i_
         ekeys = {"w": "e_w", case["posnames"][0]: "e_d"}
+        if rng.random() < 0.4:
+            ekeys["disp"] = ["e_d", "e_w"]  # a two-column edge property, in mapped order
     d = wd / "g.zarr"
     if d.exists():
         shutil.rmtree(d)
@@ -402,6 +407,14 @@ def judge_geff(case, wd, rng):
         for (u_, v_) in case["int_edges"]:
             for key_, src_ in ekeys.items():
                 got = tracks.get_edge_attr((u_, v_), key_)
+                if isinstance(src_, list):
+                    exp_ = [float(g.edges[u_, v_][c_]) for c_ in src_]
+                    if got is None or [float(x_) for x_ in got] != exp_:
+                        probs.append(("edge-property", f"edge ({u_},{v_}) {key_} (from {src_}): "
+                                      f"{got!r} != {exp_!r}",
+                                      "C12/geff/edge-property/multi-column"))
+                        return probs
+                    continue
                 if got is None or float(got) != float(g.edges[u_, v_][src_]):
                     probs.append(("edge-property", f"edge ({u_},{v_}) {key_} (from {src_}): "
                                   f"{got!r} != {g.edges[u_, v_][src_]!r}",
